@@ -343,7 +343,7 @@ def gen_trace(seed: int, tier: str) -> dict:
     n = r.randint(10, 35) if not thorough else r.randint(20, 90)
     maxdim = 6 if not thorough else 12
     events, sw = common.gen_history(
-        seed, n_events=n, families=["c14"], always=("c14",), ckpt=0.05, reopen=0.06, restart=0.03, observe=0.02,
+        seed, fault_rate=common.fault_arm(seed), n_events=n, families=["c14"], always=("c14",), ckpt=0.05, reopen=0.06, restart=0.03, observe=0.02,
         jump=0.0, fork=0.0, warmup=False)
     r2 = S("dims")
     pre = [{"op": "add_slide", "layout": 6, "dt": 1.0}]
